@@ -1,11 +1,8 @@
-//! C01 — one well-framed response per request on every connection, in order.
-//! The real connection handler (`client_handler`, reached through `App::verif_into_parts`) serves a
-//! scripted socket; request sequences x segmentation plans x timeout placements are enumerated and
-//! everything the server wrote is read back by a strict response-stream reader and compared with a
-//! reference server model (DESIGN.md §3 C01). Panic isolation across connections is explored with
-//! the scheduler on a simulated listener.
+//! C01 — one well-framed response per request on every connection, in order (threaded runner).
+//! Generator, reference server and judge live in c01_gen.rs; the tokio runner in /verif/checks-tokio.
+//! Panic isolation across connections is explored with the scheduler on a simulated listener.
 
-use crate::props::c02::{Req, METHODS};
+pub use crate::props::c01_gen::*;
 use crate::report::{show, Ctx, Stats};
 use crate::sched::{self, Bound, Cfg};
 use humphrey::http::cors::Cors;
@@ -14,7 +11,6 @@ use humphrey::http::{Request, Response, StatusCode};
 use humphrey::stream::Stream;
 use humphrey::verif::net::{ScriptSock, Step, TcpStream};
 use humphrey::App;
-use rayon::prelude::*;
 use serde_json::json;
 use std::sync::{Arc, Mutex};
 use std::time::Duration;
@@ -47,189 +43,6 @@ pub fn build_app(log: Log) -> App<Log> {
             panic!("handler panic injected by the C01 harness")
         })
         .with_cors_config("/c", Cors::new().with_origin("https://a.test").with_method(Method::Get).with_header("X-T"))
-}
-
-#[derive(Clone, Debug, PartialEq)]
-pub enum Shape {
-    Good,
-    BadStartLine(&'static str),
-    BadHeader,
-    BadLength,
-}
-
-#[derive(Clone, Debug)]
-pub struct R {
-    pub req: Req,
-    pub shape: Shape,
-}
-
-impl R {
-    pub fn bytes(&self) -> Vec<u8> {
-        match &self.shape {
-            Shape::Good => self.req.bytes(),
-            Shape::BadStartLine(l) => format!("{}\r\nHost: x\r\n\r\n", l).into_bytes(),
-            Shape::BadHeader => format!("{} {} {}\r\nHost x-no-colon\r\n\r\n", self.req.method, self.req.path, self.req.version).into_bytes(),
-            Shape::BadLength => format!("{} {} {}\r\nContent-Length: abc\r\n\r\n", self.req.method, self.req.path, self.req.version).into_bytes(),
-        }
-    }
-    fn conn(&self) -> Option<String> {
-        self.req.headers.iter().find(|h| h.0.eq_ignore_ascii_case("connection")).map(|h| h.2.clone())
-    }
-    pub fn keep_alive(&self) -> bool {
-        self.shape == Shape::Good && self.conn().map_or(false, |c| c.eq_ignore_ascii_case("keep-alive"))
-    }
-    fn label(&self) -> String {
-        match &self.shape {
-            Shape::Good => format!("{} {} {} conn={:?} body={:?}", self.req.method, self.req.path, self.req.version, self.conn(), self.req.body.as_ref().map(|b| b.len())),
-            s => format!("{:?}", s),
-        }
-    }
-}
-
-pub fn good(method: &'static str, path: &str, version: &'static str, conn: Option<&str>, body: Option<&[u8]>) -> R {
-    let mut req = Req::new(method, path);
-    req.version = version;
-    req.headers.push(("Host".into(), " ".into(), "x.test".into()));
-    if let Some(c) = conn {
-        req.headers.push(("Connection".into(), " ".into(), c.into()));
-    }
-    req.body = body.map(|b| b.to_vec());
-    R { req, shape: Shape::Good }
-}
-
-/// what the reference server does with one request
-#[derive(Debug, Clone)]
-pub struct Exp {
-    /// None: no response at all (panicking handler)
-    pub status: Option<u16>,
-    pub version: Option<&'static str>,
-    pub full_headers: bool,
-    pub cors: bool,
-    pub body: Option<Vec<u8>>,
-    pub stays_open: bool,
-    pub logged: Option<String>,
-}
-
-pub fn model(r: &R) -> Exp {
-    if r.shape != Shape::Good {
-        return Exp { status: Some(400), version: None, full_headers: false, cors: false, body: None, stays_open: false, logged: None };
-    }
-    let q = &r.req;
-    let routed = ["/r", "/e", "/empty", "/c", "/p"].contains(&q.path.as_str());
-    let ka = r.keep_alive();
-    let logline = |route: &str| Some(format!("{} {} {}?{} {} body={:?}", route, q.method, q.path, q.query.clone().unwrap_or_default(), q.version, q.body.as_ref().map(|b| show(b))));
-    if q.method == "OPTIONS" {
-        return if routed {
-            Exp { status: Some(204), version: Some(q.version), full_headers: true, cors: q.path == "/c", body: Some(vec![]), stays_open: ka, logged: None }
-        } else {
-            Exp { status: Some(404), version: Some(q.version), full_headers: true, cors: false, body: None, stays_open: ka, logged: None }
-        };
-    }
-    match q.path.as_str() {
-        "/r" => Exp { status: Some(200), version: Some(q.version), full_headers: true, cors: false, body: Some(b"routed".to_vec()), stays_open: ka, logged: logline("r") },
-        "/e" => Exp { status: Some(201), version: Some(q.version), full_headers: true, cors: false, body: Some(q.body.clone().unwrap_or_default()), stays_open: ka, logged: logline("e") },
-        "/empty" => Exp { status: Some(200), version: Some(q.version), full_headers: true, cors: false, body: Some(vec![]), stays_open: ka, logged: logline("empty") },
-        "/c" => Exp { status: Some(200), version: Some(q.version), full_headers: true, cors: true, body: Some(b"cors".to_vec()), stays_open: ka, logged: logline("c") },
-        "/p" => Exp { status: None, version: None, full_headers: false, cors: false, body: None, stays_open: false, logged: logline("p") },
-        _ => Exp { status: Some(404), version: Some(q.version), full_headers: true, cors: false, body: None, stays_open: ka, logged: None },
-    }
-}
-
-#[derive(Debug, Clone)]
-pub struct Got {
-    pub version: String,
-    pub status: u16,
-    pub headers: Vec<(String, String)>,
-    pub body: Vec<u8>,
-    /// the response had neither Content-Length nor an implicitly empty body: delimited by close
-    pub close_delimited: bool,
-    /// Humphrey's extra CRLF after a non-empty body was present (recorded finding)
-    pub stray_crlf: bool,
-}
-
-/// Strict reader of the byte stream the server produced on one connection.
-pub fn read_responses(mut b: &[u8]) -> Result<Vec<Got>, String> {
-    let mut out = vec![];
-    while !b.is_empty() {
-        if !b.starts_with(b"HTTP/1.") {
-            return Err(format!("bytes that do not start a response: {}", show(&b[..b.len().min(40)])));
-        }
-        let p = b.windows(4).position(|w| w == b"\r\n\r\n").ok_or_else(|| format!("unterminated response head: {}", show(&b[..b.len().min(60)])))?;
-        let head = std::str::from_utf8(&b[..p]).map_err(|_| "response head is not UTF-8".to_string())?;
-        let mut lines = head.split("\r\n");
-        let sl = lines.next().unwrap_or("");
-        let mut it = sl.splitn(3, ' ');
-        let (v, c, _reason) = (it.next().unwrap_or(""), it.next().unwrap_or(""), it.next().ok_or("status line without reason phrase")?);
-        if v != "HTTP/1.1" && v != "HTTP/1.0" {
-            return Err(format!("bad version in status line {:?}", sl));
-        }
-        let status: u16 = c.parse().map_err(|_| format!("bad status code in {:?}", sl))?;
-        let mut headers = vec![];
-        for l in lines {
-            let (n, val) = l.split_once(':').ok_or(format!("header line without colon {:?}", l))?;
-            headers.push((n.to_ascii_lowercase(), val.trim().to_string()));
-        }
-        let rest = &b[p + 4..];
-        let cl = headers.iter().find(|h| h.0 == "content-length").map(|h| h.1.parse::<usize>());
-        let (body, after, close_delimited) = match cl {
-            Some(Ok(n)) => {
-                if rest.len() < n {
-                    return Err(format!("body shorter than Content-Length ({} of {})", rest.len(), n));
-                }
-                (rest[..n].to_vec(), &rest[n..], false)
-            }
-            Some(Err(_)) => return Err("unparsable Content-Length".into()),
-            None => {
-                if status == 204 || status == 304 || status / 100 == 1 {
-                    (vec![], rest, false)
-                } else {
-                    (rest.to_vec(), &rest[rest.len()..], true)
-                }
-            }
-        };
-        let mut stray = false;
-        let mut after = after;
-        if !body.is_empty() && !close_delimited && after.starts_with(b"\r\n") && (after.len() == 2 || after[2..].starts_with(b"HTTP/1.")) {
-            stray = true;
-            after = &after[2..];
-        }
-        out.push(Got { version: v.to_string(), status, headers, body, close_delimited, stray_crlf: stray });
-        b = after;
-    }
-    Ok(out)
-}
-
-fn imf_fixdate_ok(v: &str) -> bool {
-    // "Sun, 06 Nov 1994 08:49:37 GMT"
-    let b = v.as_bytes();
-    v.len() == 29
-        && ["Mon", "Tue", "Wed", "Thu", "Fri", "Sat", "Sun"].contains(&&v[..3])
-        && &v[3..5] == ", "
-        && b[5..7].iter().all(|c| c.is_ascii_digit())
-        && b[7] == b' '
-        && ["Jan", "Feb", "Mar", "Apr", "May", "Jun", "Jul", "Aug", "Sep", "Oct", "Nov", "Dec"].contains(&&v[8..11])
-        && b[11] == b' '
-        && b[12..16].iter().all(|c| c.is_ascii_digit())
-        && b[16] == b' '
-        && b[19] == b':'
-        && b[22] == b':'
-        && v.ends_with(" GMT")
-}
-
-#[derive(Clone, Debug)]
-pub struct Plan {
-    /// cut positions in the concatenated byte stream
-    pub cuts: Vec<usize>,
-    /// with a connection timeout configured: the client goes silent before request index k (k = n: after the last)
-    pub timeout_before: Option<usize>,
-    pub timeout_configured: bool,
-}
-
-pub struct Outcome {
-    pub out: Vec<u8>,
-    pub log: Vec<String>,
-    pub panicked: bool,
-    pub shutdown_or_dropped: bool,
 }
 
 pub fn serve_script(seq: &[R], plan: &Plan) -> Outcome {
@@ -268,300 +81,6 @@ pub fn serve_script(seq: &[R], plan: &Plan) -> Outcome {
     let g = sock.lock().unwrap();
     let l = log.lock().unwrap().clone();
     Outcome { out: g.out.clone(), log: l, panicked: r.is_err(), shutdown_or_dropped: g.dropped || g.shutdown }
-}
-
-/// index k of the first request whose last byte shares a segment with the first byte of request k+1
-/// (Humphrey reads ahead into a per-request buffer and discards it: recorded finding)
-fn first_coalesced(seq: &[R], plan: &Plan, n_sent: usize) -> Option<usize> {
-    let mut off = 0;
-    for (k, r) in seq.iter().enumerate().take(n_sent.saturating_sub(1)) {
-        off += r.bytes().len();
-        if !plan.cuts.contains(&off) {
-            return Some(k);
-        }
-    }
-    None
-}
-
-pub const READ_AHEAD_SIG: &str = "requests coalesced in one segment: bytes read ahead past the end of a request are discarded";
-
-pub fn check_case(s: &mut Stats, seq: &[R], plan: &Plan) {
-    s.evaluations += 1;
-    s.transitions += seq.len() as u64;
-    let o = serve_script(seq, plan);
-    let ctx = |what: String| {
-        json!({"what": what, "requests": seq.iter().map(|r| r.label()).collect::<Vec<_>>(), "cuts": if plan.cuts.len() > 12 { json!(format!("{} cuts", plan.cuts.len())) } else { json!(plan.cuts) },
-               "timeout_configured": plan.timeout_configured, "client_silent_before_request": plan.timeout_before, "server_wrote": show(&o.out[..o.out.len().min(400)]), "handler_log": o.log})
-    };
-    // reference: walk the requests the server gets to see
-    let n_sent = plan.timeout_before.unwrap_or(seq.len());
-    let mut exps: Vec<Exp> = vec![];
-    let mut open = true;
-    let mut panic_expected = false;
-    for r in &seq[..n_sent] {
-        if !open {
-            break;
-        }
-        let e = model(r);
-        open = e.stays_open;
-        if e.status.is_none() {
-            panic_expected = true;
-        }
-        exps.push(e);
-    }
-    if open && plan.timeout_before.is_some() && plan.timeout_configured {
-        // idle past the timeout at a request boundary: 408, then close
-        exps.push(Exp { status: Some(408), version: None, full_headers: false, cors: false, body: None, stays_open: false, logged: None });
-    }
-    // Discrepancies that first show *after* a coalesced request boundary are the recorded read-ahead
-    // finding; everything up to and including the request before that boundary is held to the full oracle.
-    let co = first_coalesced(seq, plan, n_sent);
-    let sig = |at: usize, normal: String| -> String {
-        match co {
-            Some(k) if at > k => READ_AHEAD_SIG.to_string(),
-            _ => normal,
-        }
-    };
-    let want_resp: Vec<(usize, &Exp)> = exps.iter().enumerate().filter(|(_, e)| e.status.is_some()).collect();
-    if o.panicked != panic_expected {
-        let at = exps.iter().position(|e| e.status.is_none()).unwrap_or(exps.len());
-        s.violation(sig(at, format!("connection handler {}", if o.panicked { "panicked unexpectedly" } else { "did not propagate the handler panic" })), || ctx("panic".into()));
-        return;
-    }
-    let got = match read_responses(&o.out) {
-        Ok(g) => g,
-        Err(e) => {
-            s.violation(sig(co.map_or(0, |k| k + 1), "server output is not a sequence of well-framed responses".into()), || ctx(e.clone()));
-            return;
-        }
-    };
-    if got.iter().any(|g| g.stray_crlf) {
-        s.violation("extra CRLF after a non-empty response body", || ctx("the response is followed by \\r\\n that belongs to no message".into()));
-    }
-    for (i, g) in got.iter().enumerate() {
-        let Some((ri, e)) = want_resp.get(i) else {
-            s.violation(sig(exps.len(), "more responses than requests".into()), || ctx(format!("{} responses, expected {}", got.len(), want_resp.len())));
-            return;
-        };
-        let ri = *ri;
-        let last = i + 1 == got.len();
-        if Some(g.status) != e.status {
-            s.violation(sig(ri, format!("wrong status ({} for a request the reference answers {})", g.status, e.status.unwrap())), || ctx(format!("response {}", i)));
-            return;
-        }
-        if let Some(v) = e.version {
-            if g.version != v {
-                s.violation(sig(ri, "response does not carry the request's HTTP version".into()), || ctx(format!("response {}: {} for a {} request", i, g.version, v)));
-                return;
-            }
-        }
-        let h = |n: &str| g.headers.iter().find(|x| x.0 == n).map(|x| x.1.clone());
-        if e.full_headers {
-            match h("date") {
-                Some(d) if imf_fixdate_ok(&d) => {}
-                other => {
-                    s.violation(sig(ri, "response without a valid Date header".into()), || ctx(format!("response {}: Date {:?}", i, other)));
-                    return;
-                }
-            }
-            if h("server").is_none() {
-                s.violation(sig(ri, "response without a Server header".into()), || ctx(format!("response {}", i)));
-                return;
-            }
-        }
-        if e.cors {
-            let ok = h("access-control-allow-origin").as_deref() == Some("https://a.test")
-                && h("access-control-allow-methods").as_deref() == Some("GET")
-                && h("access-control-allow-headers").map(|v| v.to_ascii_lowercase()).as_deref() == Some("x-t");
-            if !ok {
-                s.violation(sig(ri, "response lacks the matched route's CORS headers".into()), || ctx(format!("response {}: {:?}", i, g.headers)));
-                return;
-            }
-        } else if e.full_headers && h("access-control-allow-origin").is_some() {
-            s.violation(sig(ri, "CORS headers of another route on a response".into()), || ctx(format!("response {}", i)));
-            return;
-        }
-        if let Some(b) = &e.body {
-            if &g.body != b {
-                s.violation(sig(ri, "response body differs from what the handler produced".into()), || ctx(format!("response {}: {} expected {}", i, show(&g.body), show(b))));
-                return;
-            }
-        }
-        if g.close_delimited && (e.stays_open || !last) {
-            s.violation(sig(ri, "a response after which the connection stays open is not self-delimiting".into()), || ctx(format!("response {} has no Content-Length", i)));
-            return;
-        }
-    }
-    if got.len() < want_resp.len() {
-        let ri = want_resp[got.len()].0;
-        s.violation(sig(ri, "a request was not answered".into()), || ctx(format!("{} responses, expected {}", got.len(), want_resp.len())));
-        return;
-    }
-    // handler log = requests that reach a handler, nothing dropped, nothing invented
-    let want_log: Vec<String> = exps.iter().filter_map(|e| e.logged.clone()).collect();
-    if o.log != want_log {
-        let common = o.log.iter().zip(&want_log).take_while(|(a, b)| a == b).count();
-        // index of the request the first differing log line belongs to
-        let at = exps.iter().enumerate().filter(|(_, e)| e.logged.is_some()).nth(common).map_or(exps.len(), |(i, _)| i);
-        s.violation(sig(at, "handlers saw different requests than the client sent".into()), || ctx(format!("expected {:?}", want_log)));
-        return;
-    }
-    // the connection is closed exactly when the reference says so: after the script the client sends EOF, so
-    // "open" shows as the server still reading (it consumed the EOF and returned) — in both cases the handler
-    // returns; what must not happen is a response after the connection should have closed, checked above.
-    s.outcome(format!("{} responses{}", got.len(), if plan.timeout_before.is_some() && plan.timeout_configured { " + timeout" } else { "" }));
-}
-
-pub fn singles() -> Vec<R> {
-    let mut v = vec![];
-    let targets = ["/r", "/nope", "/c", "/e", "/empty", "/p"];
-    let conns: [Option<&str>; 6] = [Some("keep-alive"), Some("Keep-Alive"), Some("KEEP-ALIVE"), Some("close"), None, Some("keep-alive, Upgrade")];
-    for m in METHODS {
-        for t in targets {
-            for c in conns {
-                for ver in ["HTTP/1.1", "HTTP/1.0"] {
-                    v.push(good(m, t, ver, c, None));
-                }
-            }
-        }
-    }
-    for m in ["POST", "PUT"] {
-        for body in [&b""[..], b"x", b"hello"] {
-            for c in [Some("keep-alive"), Some("close")] {
-                v.push(good(m, "/e", "HTTP/1.1", c, Some(body)));
-                v.push(good(m, "/r", "HTTP/1.0", c, Some(body)));
-            }
-        }
-    }
-    let mut q = good("GET", "/r", "HTTP/1.1", Some("keep-alive"), None);
-    q.req.query = Some("a=1&b".into());
-    v.push(q);
-    v.extend(malformed());
-    v
-}
-
-pub fn malformed() -> Vec<R> {
-    let base = good("GET", "/r", "HTTP/1.1", Some("keep-alive"), None);
-    let mut v = vec![];
-    for l in ["BREW /r HTTP/1.1", "get /r HTTP/1.1", "GET /r", "GET", "/r HTTP/1.1", "GET  /r HTTP/1.1"] {
-        v.push(R { req: base.req.clone(), shape: Shape::BadStartLine(l) });
-    }
-    v.push(R { req: base.req.clone(), shape: Shape::BadHeader });
-    v.push(R { req: base.req.clone(), shape: Shape::BadLength });
-    v
-}
-
-/// keep-alive requests that may be followed by another one
-pub fn firsts() -> Vec<R> {
-    let mut v = vec![];
-    for m in METHODS {
-        for t in ["/r", "/nope", "/c", "/e", "/empty"] {
-            v.push(good(m, t, "HTTP/1.1", Some("keep-alive"), None));
-        }
-    }
-    v.push(good("GET", "/r", "HTTP/1.0", Some("Keep-Alive"), None));
-    v.push(good("POST", "/e", "HTTP/1.1", Some("KEEP-ALIVE"), Some(b"hello")));
-    v.push(good("PUT", "/e", "HTTP/1.1", Some("keep-alive"), Some(b"")));
-    v.push(good("POST", "/e", "HTTP/1.0", Some("keep-alive"), Some(b"x")));
-    v
-}
-
-pub fn seconds() -> Vec<R> {
-    let mut v = firsts();
-    v.push(good("GET", "/r", "HTTP/1.1", Some("close"), None));
-    v.push(good("GET", "/r", "HTTP/1.1", None, None));
-    v.push(good("OPTIONS", "/c", "HTTP/1.0", Some("close"), None));
-    v.push(good("DELETE", "/p", "HTTP/1.1", Some("keep-alive"), None));
-    v.push(good("POST", "/e", "HTTP/1.1", Some("close"), Some(b"tail!")));
-    v.extend(malformed().into_iter().take(3));
-    v.push(R { req: good("GET", "/r", "HTTP/1.1", None, None).req, shape: Shape::BadLength });
-    v
-}
-
-fn plans_for(seq: &[R], pairs: bool, full_single_cuts: bool) -> Vec<Plan> {
-    let mut total = 0;
-    let mut bounds = vec![];
-    for r in seq {
-        total += r.bytes().len();
-        bounds.push(total);
-    }
-    let mut v = vec![];
-    let mk = |cuts: Vec<usize>| Plan { cuts, timeout_before: None, timeout_configured: false };
-    v.push(mk(vec![]));
-    if seq.len() > 1 {
-        v.push(mk(bounds[..bounds.len() - 1].to_vec()));
-    }
-    v.push(mk((1..total).collect()));
-    let inner: Vec<usize> = if full_single_cuts {
-        (1..total).collect()
-    } else {
-        // around every structural boundary
-        let mut f = vec![];
-        let mut off = 0;
-        for r in seq {
-            for b in r.req.boundaries() {
-                f.push(off + b);
-            }
-            off += r.bytes().len();
-            f.extend([off.saturating_sub(1), off, off + 1]);
-        }
-        f.retain(|&c| c >= 1 && c < total);
-        f.sort();
-        f.dedup();
-        f
-    };
-    for &c in &inner {
-        // a single cut elsewhere than a request boundary still delivers later requests coalesced; add the
-        // boundaries so that only the cut under test varies
-        let mut cuts = bounds[..bounds.len() - 1].to_vec();
-        cuts.push(c);
-        cuts.sort();
-        cuts.dedup();
-        v.push(mk(cuts));
-    }
-    if pairs {
-        for i in 0..inner.len() {
-            for j in i + 1..inner.len() {
-                let mut cuts = bounds[..bounds.len() - 1].to_vec();
-                cuts.extend([inner[i], inner[j]]);
-                cuts.sort();
-                cuts.dedup();
-                v.push(mk(cuts));
-            }
-        }
-    }
-    // connection timeout configured: no silence; silence before request k
-    let per_req: Vec<usize> = bounds[..bounds.len() - 1].to_vec();
-    v.push(Plan { cuts: per_req.clone(), timeout_before: None, timeout_configured: true });
-    v.push(Plan { cuts: (1..total).collect(), timeout_before: None, timeout_configured: true });
-    for k in 0..=seq.len() {
-        v.push(Plan { cuts: per_req.clone(), timeout_before: Some(k), timeout_configured: true });
-    }
-    v
-}
-
-fn run_seqs(st: &mut Stats, name: &str, seqs: Vec<Vec<R>>, pairs: bool, full: bool) {
-    st.count(&format!("sequences[{}]", name), seqs.len() as u64);
-    let part = seqs
-        .par_iter()
-        .fold(Stats::default, |mut s, seq| {
-            s.states += 1;
-            if seq.len() > 1 {
-                s.nontrivial += 1;
-            }
-            for plan in plans_for(seq, pairs, full) {
-                check_case(&mut s, seq, &plan);
-            }
-            if s.states % 97 == 1 {
-                s.sample(|| json!({"family": name, "requests": seq.iter().map(|r| r.label()).collect::<Vec<_>>()}));
-            }
-            s
-        })
-        .reduce(Stats::default, |mut a, b| {
-            a.merge(b);
-            a
-        });
-    st.merge(part);
 }
 
 // ---------------- panic isolation across connections (E1) ----------------
@@ -661,14 +180,14 @@ pub fn run(mut cx: Ctx) -> ! {
     cx.rule = "request sequences (all single requests of the full method x target x Connection x version product, bodies and 8 malformed shapes; all pairs first x second from menus of 29 x 41; triples in thorough) are sent to the real connection handler over a scripted socket under every segmentation plan (all in one segment, one segment per request, bytewise, every single cut (structural cuts for pairs), pairs of cuts in thorough) and with a connection timeout configured and the client going silent before each request; output is read back by a strict response-stream reader and compared with a reference server; a scheduler-explored scenario checks that a panicking handler costs only its own connection; states = distinct sequences, transitions = requests served; non-trivial = sequences of >= 2 requests".into();
     let quick = cx.quick();
     let mut st = Stats::default();
-    run_seqs(&mut st, "singles", singles().into_iter().map(|r| vec![r]).collect(), !quick, true);
+    run_seqs(&mut st, "singles", singles().into_iter().map(|r| vec![r]).collect(), !quick, true, true, &serve_script, "threaded");
     let mut pairs = vec![];
     for a in firsts() {
         for b in seconds() {
             pairs.push(vec![a.clone(), b]);
         }
     }
-    run_seqs(&mut st, "pairs", pairs, false, true);
+    run_seqs(&mut st, "pairs", pairs, false, true, true, &serve_script, "threaded");
     if !quick {
         let f: Vec<R> = firsts().into_iter().step_by(3).collect();
         let mut triples = vec![];
@@ -679,10 +198,11 @@ pub fn run(mut cx: Ctx) -> ! {
                 }
             }
         }
-        run_seqs(&mut st, "triples", triples, false, false);
+        run_seqs(&mut st, "triples", triples, false, false, true, &serve_script, "threaded");
     }
     cx.stats.merge(st);
     isolation(&mut cx);
+    crate::tokio_twin::merge(&mut cx, "C01");
     cx.assume("threaded runtime; header set of 400/408 responses, reason phrases and the value of the response Connection header are not demanded");
     cx.finish()
 }
